@@ -84,3 +84,15 @@ Fixpoint lv (fuel : nat) : lv_t :=
   | S f => lv_step (lv f)
   end.
 End View.
+
+(* ---------------------------------------------------------------- the documented component list
+   The tables the specification is evaluated with when it is compared with the implementation's output: the component
+   fields in the order of the visual output (activation conditions in front or in their place), and the property
+   fields of each component.  Flat printing and DoV wiring are taken from the given tables (they are the business of
+   C17 / C07).  Tie/C09_tie.v: the regenerated tables are these. *)
+Definition doc_vis_order : list (guard * list field) :=
+  [(GIfFront, [FCac; FCacC]); (GAlways, [FA; FD; FI; FBdir; FBdirC; FBind; FBindC; FE; FM; FF; FP; FPC]);
+   (GIfNotFront, [FCac; FCacC]); (GAlways, [FCex; FCexC; FO])].
+Definition doc_vis_props : list (str * field * field) :=
+  [($"A", FAp, FApC); ($"Bdir", FBdirp, FBdirpC); ($"Bind", FBindp, FBindpC); ($"E", FEp, FEpC); ($"P", FPp, FPpC)].
+Definition spec_vis (T : vis_tables) : vis_tables := mkVisT doc_vis_order doc_vis_props (vt_flat T) (vt_flat_val T) (vt_dov T).
